@@ -97,6 +97,8 @@ def run_case(rec, Kx, Ky, N, per, orient, op, li, seed, pre=None):
                     u[f, jp, ip] = D.edge_val(U, V, f, ip, jp, "X")
                     v[f, jp, ip] = D.edge_val(U, V, f, ip, jp, "Y")
         fields.append((U, V, u, v))
+    if li % 2:
+        table = {f: dict(reversed(list(table[f].items()))) for f in reversed(list(table))}
     try:
         g = make_grid(nf, N, table)
     except Exception as e:
